@@ -12,7 +12,7 @@ use flurry::verif as fvf;
 pub fn draw(rng: &mut Rng, thorough: bool) -> RoundCfg {
     let shape = rng.below(10);
     let mut cfg = RoundCfg {
-        mode: *rng.pick(&[UNIFORM, IDENTITY, CONSTANT, SAMEBIN, HIGHBITS, MIXED, SPLITTING]),
+        mode: *rng.pick(&ALL_MODES),
         cap: *rng.pick(&[0usize, 1, 2, 3, 16, 64, 256]),
         nkeys: *rng.pick(&[4u64, 8, 16, 24, 48]),
         stable: 0,
@@ -42,14 +42,14 @@ pub fn draw(rng: &mut Rng, thorough: bool) -> RoundCfg {
         }
         2 | 3 => {
             // one crowded bin oscillating around the treeify / untreeify thresholds
-            cfg.mode = *rng.pick(&[CONSTANT, SAMEBIN, MIXED, SPLITTING]);
+            cfg.mode = *rng.pick(&CROWDED_MODES);
             cfg.cap = *rng.pick(&[64usize, 64, 128]);
             cfg.nkeys = *rng.pick(&[10u64, 12, 16, 24]);
             cfg.prefill = rng.range(4, 9);
             cfg.mix.insert = 28;
             cfg.mix.remove = 24;
             cfg.mix.compute_none = 6;
-            cfg.focus_site = *rng.pick(&[0, fvf::WIN_BEFORE_TREEIFY, fvf::WIN_TREE_FIRST_STORED, fvf::WIN_TREE_READ_LOCKED, fvf::WIN_TREE_ROOT_LOCKED, fvf::WIN_HEAD_VALIDATED]);
+            cfg.focus_site = *rng.pick(&[0, fvf::WIN_BEFORE_TREEIFY, fvf::WIN_TREE_FIRST_STORED, fvf::WIN_TREE_READ_LOCKED, fvf::WIN_TREE_ROOT_LOCKED, fvf::WIN_HEAD_VALIDATED, fvf::WIN_BEFORE_UNTREEIFY_STORE]);
         }
         4 => {
             // tree bins that are split by a resize while in use
